@@ -1185,3 +1185,25 @@ class MiniInt:
             else:
                 self.expr(s, env, depth)
         return False
+
+
+def norm_fact_nodes(f, n, all_locals=True):
+    """like norm_facts but returns (atom node, polarity) pairs: stable locals expanded, `!` folded, true conjunctions
+    and false disjunctions split"""
+    out = []
+
+    def add(c, pol):
+        c = strip(c)
+        while c is not None and c["k"] == "UnaryOperator" and c.get("op") == "!":
+            pol = not pol
+            c = strip(kids(c)[0])
+        if c is None:
+            return
+        if c["k"] == "BinaryOperator" and ((c.get("op") == "&&" and pol) or (c.get("op") == "||" and not pol)):
+            add(kids(c)[0], pol)
+            add(kids(c)[1], pol)
+            return
+        out.append((c, pol))
+    for cid, pol in f.cfg.facts_at(n):
+        add(expand_locals(f, f.nodes[cid], 0, all_locals), pol)
+    return out
